@@ -84,10 +84,10 @@ def check_recv(stream, size, script, waitall, ssl):
         return None
     except ConnectionClosedError as x:
         if hasattr(x, "partialData"):
-            if bytes(x.partialData) != stream[:sock.pos] or len(x.partialData) >= size:
+            if bytes(x.partialData) != stream[:sock.pos] or len(x.partialData) > size or (size > 0 and len(x.partialData) >= size):
                 return dict(desc, violated="partialData==received-so-far", got=list(bytes(x.partialData)), cursor=sock.pos)
-        elif not sock.fatal:
-            return dict(desc, violated="no-partialData-only-on-fatal-errno")
+        else:
+            return dict(desc, violated="the connection-closed error carries the bytes received so far (partialData)", cause="fatal errno" if sock.fatal else "end of stream")
         return None
     except Exception as x:      # noqa
         return dict(desc, violated="noescape", got=repr(x))
